@@ -301,8 +301,8 @@ pub fn def() -> CheckDef {
             "for deeper names only the record sets are compared (the statement does not define their instance name)",
         ],
         sections: vec![
-            Box::new(PropSection { name: "discovery", rule: "advertise -> wire -> ingest -> report", strategy, cases: (20_000, 400_000), check }),
-            Box::new(PropSection { name: "escape", rule: "escape / unescape", strategy: escape_strategy, cases: (40_000, 500_000), check: check_escape }),
+            Box::new(PropSection { name: "discovery", rule: "advertise -> wire -> ingest -> report", strategy, cases: (150_000, 1_500_000), check }),
+            Box::new(PropSection { name: "escape", rule: "escape / unescape", strategy: escape_strategy, cases: (200_000, 1_000_000), check: check_escape }),
         ],
     }
 }
